@@ -305,6 +305,10 @@ def via_readonce(rng, toks):
     second entry point into Write must behave exactly as Write"""
     out = []
     for t in toks:
+        if t[0] == "n" and rng.below(6) == 0:
+            # "give me the rest": Next(math.MaxInt) and its neighbours (off + n must not be computed before clamping)
+            out.append("n%d" % ((1 << 63) - 1 - rng.below(70)))
+            continue
         if t[0] == "w" and rng.below(3) == 0:
             if rng.below(4) == 0:
                 # re-entrant reader: it performs one op on the same Buffer before delivering its bytes
@@ -317,7 +321,7 @@ def via_readonce(rng, toks):
     return out
 
 
-B_ALPHA = ["w0", "w1", "w3", "w40", "o1", "o40", "r0", "r1", "r3", "n1", "n3", "n50", "s0:0", "s0:2", "s1:-1", "s1:1", "s2:0", "s2:-2",
+B_ALPHA = ["w0", "w1", "w3", "w40", "o1", "o40", "n9223372036854775807", "r0", "r1", "r3", "n1", "n3", "n50", "s0:0", "s0:2", "s1:-1", "s1:1", "s2:0", "s2:-2",
            "s0:5", "s3:0", "t", "z", "g0", "g1", "g70"]
 
 
